@@ -7,7 +7,10 @@ use std::sync::atomic::{AtomicBool, AtomicUsize, Ordering};
 use std::sync::{Arc, Mutex};
 use std::time::SystemTime;
 use vfs::error::VfsErrorKind;
-use vfs::{AltrootFS, FileSystem, MemoryFS, OverlayFS, PhysicalFS, SeekAndRead, SeekAndWrite, VfsMetadata, VfsPath, VfsResult};
+use vfs::{
+    AltrootFS, FileSystem, MemoryFS, OverlayFS, PhysicalFS, SeekAndRead, SeekAndWrite, VfsMetadata,
+    VfsPath, VfsResult,
+};
 
 #[derive(Clone, Debug, PartialEq, Eq, Hash)]
 pub enum Cfg {
@@ -22,8 +25,15 @@ impl Cfg {
         match self {
             Cfg::Mem => "Mem".into(),
             Cfg::Phys => "Phys".into(),
-            Cfg::Alt(s, p) => format!("Alt({},{})", s.label(), if p.is_empty() { "\"\"" } else { p }),
-            Cfg::Ov(l) => format!("Ov[{}]", l.iter().map(|c| c.label()).collect::<Vec<_>>().join(",")),
+            Cfg::Alt(s, p) => format!(
+                "Alt({},{})",
+                s.label(),
+                if p.is_empty() { "\"\"" } else { p }
+            ),
+            Cfg::Ov(l) => format!(
+                "Ov[{}]",
+                l.iter().map(|c| c.label()).collect::<Vec<_>>().join(",")
+            ),
         }
     }
     pub fn alt(s: Cfg, p: &str) -> Cfg {
@@ -198,7 +208,9 @@ impl Wrap {
                 self.ctl.runaway.store(true, Ordering::SeqCst);
                 return Err(VfsErrorKind::Other("HARNESS: call horizon exceeded".into()).into());
             }
-            if n == self.ctl.fail_at[0].load(Ordering::SeqCst) || n == self.ctl.fail_at[1].load(Ordering::SeqCst) {
+            if n == self.ctl.fail_at[0].load(Ordering::SeqCst)
+                || n == self.ctl.fail_at[1].load(Ordering::SeqCst)
+            {
                 injected = true;
             }
         }
@@ -210,7 +222,11 @@ impl Wrap {
             injected,
         });
         if injected {
-            return Err(VfsErrorKind::IoError(std::io::Error::new(std::io::ErrorKind::Other, "injected fault")).into());
+            return Err(VfsErrorKind::IoError(std::io::Error::new(
+                std::io::ErrorKind::Other,
+                "injected fault",
+            ))
+            .into());
         }
         Ok(())
     }
@@ -236,9 +252,14 @@ impl<H> WrapHandle<H> {
             let n = self.ctl.calls.fetch_add(1, Ordering::SeqCst) + 1;
             if n > CALL_HORIZON {
                 self.ctl.runaway.store(true, Ordering::SeqCst);
-                return Err(std::io::Error::new(std::io::ErrorKind::Other, "HARNESS: call horizon exceeded"));
+                return Err(std::io::Error::new(
+                    std::io::ErrorKind::Other,
+                    "HARNESS: call horizon exceeded",
+                ));
             }
-            if n == self.ctl.fail_at[0].load(Ordering::SeqCst) || n == self.ctl.fail_at[1].load(Ordering::SeqCst) {
+            if n == self.ctl.fail_at[0].load(Ordering::SeqCst)
+                || n == self.ctl.fail_at[1].load(Ordering::SeqCst)
+            {
                 injected = true;
             }
         }
@@ -250,7 +271,10 @@ impl<H> WrapHandle<H> {
             injected,
         });
         if injected {
-            return Err(std::io::Error::new(std::io::ErrorKind::Other, "injected fault"));
+            return Err(std::io::Error::new(
+                std::io::ErrorKind::Other,
+                "injected fault",
+            ));
         }
         Ok(())
     }
@@ -567,7 +591,14 @@ struct Builder {
 }
 
 impl Builder {
-    fn node(&mut self, cfg: &Cfg, id: &str, lower: bool, upper: bool, top_layer: Option<usize>) -> VfsPath {
+    fn node(
+        &mut self,
+        cfg: &Cfg,
+        id: &str,
+        lower: bool,
+        upper: bool,
+        top_layer: Option<usize>,
+    ) -> VfsPath {
         // (every wrapped node counts as "a call into a filesystem" for the fault injector)
         let underlying = true;
         let fs: Box<dyn FileSystem> = match cfg {
@@ -622,7 +653,13 @@ impl Builder {
                 let mut roots = vec![];
                 for (i, l) in layers.iter().enumerate() {
                     let tl = if id == "0" { Some(i) } else { top_layer };
-                    roots.push(self.node(l, &format!("{}.{}", id, i), lower || i > 0, upper || i == 0, tl));
+                    roots.push(self.node(
+                        l,
+                        &format!("{}.{}", id, i),
+                        lower || i > 0,
+                        upper || i == 0,
+                        tl,
+                    ));
                 }
                 Box::new(OverlayFS::new(&roots))
             }
@@ -639,18 +676,29 @@ impl Builder {
 /// Creates the altroot directory `p` in `s` plus (optionally) sentinel entries outside of it
 /// that no call through the altroot may ever touch.  Returns the path of `p`.
 pub fn make_altroot_dir(s: &VfsPath, p: &str, sentinels: bool) -> VfsPath {
-    let root = if p.is_empty() { s.clone() } else { s.join(&p[1..]).expect("HARNESS: altroot prefix") };
-    root.create_dir_all().expect("HARNESS: create altroot directory");
+    let root = if p.is_empty() {
+        s.clone()
+    } else {
+        s.join(&p[1..]).expect("HARNESS: altroot prefix")
+    };
+    root.create_dir_all()
+        .expect("HARNESS: create altroot directory");
     // (with P = the underlying root nothing is outside the altroot, so there is nothing to plant)
     if sentinels && !p.is_empty() {
         let sdir = s.join(&SENTINEL_DIR[1..]).unwrap();
         let _ = sdir.create_dir();
         let _ = sdir.join("f").unwrap().write_file(b"sentinel");
         if !p.is_empty() {
-            let _ = s.join(&format!("{}x", &p[1..])).unwrap().write_file(b"sibling");
+            let _ = s
+                .join(&format!("{}x", &p[1..]))
+                .unwrap()
+                .write_file(b"sibling");
             let mut anc = crate::ops::parent_of(p);
             while !anc.is_empty() {
-                let _ = s.join(&format!("{}/sf", &anc[1..])).unwrap().write_file(b"anc");
+                let _ = s
+                    .join(&format!("{}/sf", &anc[1..]))
+                    .unwrap()
+                    .write_file(b"anc");
                 anc = crate::ops::parent_of(&anc);
             }
         }
@@ -697,11 +745,22 @@ pub fn build_opts(cfg: &Cfg, order: Order, init: &Init, sentinels: bool) -> Buil
             for (p, n) in entries {
                 let full = format!("{}{}", base.prefix, p);
                 let comps: Vec<&str> = full[1..].split('/').collect();
-                let ndirs = if matches!(n, Node::Dir) { comps.len() } else { comps.len() - 1 };
+                let ndirs = if matches!(n, Node::Dir) {
+                    comps.len()
+                } else {
+                    comps.len() - 1
+                };
                 for k in 1..=ndirs {
-                    let d = base.raw.join(&comps[..k].join("/")).expect("HARNESS: init path");
+                    let d = base
+                        .raw
+                        .join(&comps[..k].join("/"))
+                        .expect("HARNESS: init path");
                     let _ = d.create_dir();
-                    assert!(d.is_dir().unwrap_or(false), "HARNESS: init dir {:?}", d.as_str());
+                    assert!(
+                        d.is_dir().unwrap_or(false),
+                        "HARNESS: init dir {:?}",
+                        d.as_str()
+                    );
                 }
                 if let Node::File(bytes) = n {
                     let x = base.raw.join(&full[1..]).expect("HARNESS: init path");
@@ -711,7 +770,10 @@ pub fn build_opts(cfg: &Cfg, order: Order, init: &Init, sentinels: bool) -> Buil
         }
     });
     if let Err(m) = r {
-        SETUP_PANICS.lock().unwrap().push(format!("{}: {}", cfg.label(), m));
+        SETUP_PANICS
+            .lock()
+            .unwrap()
+            .push(format!("{}: {}", cfg.label(), m));
     }
     built
 }
